@@ -1,5 +1,6 @@
 import SimilarVerif.Props.C01
 import SimilarVerif.Props.C08
+import SimilarVerif.Lemmas.Deadline
 /-!
 # C07 — deadline expiry at any point still yields a valid diff, promptly; it is plumbed
 
@@ -8,10 +9,11 @@ The deadline is the virtual clock of `World` (`clock = some f`: the next `f` dea
 `/repo`), so "expiry at the k-th check" is an input of every theorem below: they quantify over ALL
 worlds, hence over every expiry point.
 Proved here: validity and finish-once for every expiry point (LCS unconditionally incl. totality;
-Myers and Patience relative to the snake hypothesis). In progress (Lemmas/Deadline.lean): "a deadline
-that never expires = no deadline" and the bound on comparisons after expiry; until they are imported
-these clauses are established by the `deadline` suite: every expiry point k = 0..#checks+1 of every
-run, exact comparison and probe counts against the model, measured comparisons after expiry.
+Myers and Patience relative to the snake hypothesis). Second half of the file (Lemmas/Deadline.lean): "a deadline
+that never expires = no deadline" for every algorithm and the capture pipeline; LCS does no work after
+expiry; Myers makes at most 3·min(N,M) comparisons after the first expired probe.  Not yet a theorem:
+the post-expiry bound for Patience (its hook runs Myers inside hook calls); it is established by the
+`deadline` suite: measured comparisons after expiry at every expiry point of every run.
 What no executable model can exhibit: real time (the virtual clock replaces `Instant::now() > deadline`).
 -/
 namespace SimilarVerif.C07
@@ -78,5 +80,31 @@ theorem patience_every_expiry_uncond (E : Env) (os oe ns ne : Nat) (f : Option N
       (r'.trace.filter (· == .finish)).length = 1 := by
   have hv := C01.patience_valid_if_returns E os oe ns ne _ r' w' ho hn hb h
   exact ⟨hv, C08.finish_once_last E os oe ns ne r'.trace hv⟩
+
+end SimilarVerif.C07
+
+namespace SimilarVerif.C07
+open SimilarVerif Spec DeadlineP
+
+/-- **A deadline that never expires gives exactly the result of no deadline** — every algorithm, the
+recording hook: if the run under a clock with fuel `f` made at most `f` probes (so no probe answered
+"exceeded"), the run without deadline returns the same hook state and the same comparison count. -/
+theorem never_expiring_is_no_deadline : type_of% @never_expires_rec := @never_expires_rec
+
+/-- … and through the whole capture pipeline (`capture_diff_deadline`) -/
+theorem never_expiring_capture : type_of% @never_expires_capture := @never_expires_capture
+
+/-- **LCS after expiry**: once the table construction gave up, no further comparison and no further
+probe happens — the final world is the world right after the probe that answered "exceeded" -/
+theorem lcs_no_work_after_expiry : type_of% @lcsDiff_expired := @lcsDiff_expired
+
+/-- **Myers started after expiry**: one probe, at most `min(N,M) + 2` comparisons, no recursion -/
+theorem myers_expired_at_start : type_of% @myersDiff_expired := @myersDiff_expired
+theorem conquer_expired_no_recursion : type_of% @conquer_expired_norec := @conquer_expired_norec
+
+/-- **Myers, expiry at ANY later probe**: after the first probe that answered "exceeded" the run makes
+at most `3·min(N,M)` further comparisons (`PostN`: the pending `conquer` frames own disjoint boxes,
+each strips its prefix and suffix and falls back) -/
+theorem myers_post_expiry_bound : type_of% @myersDiff_post_expiry := @myersDiff_post_expiry
 
 end SimilarVerif.C07
